@@ -147,6 +147,7 @@ func (r *Report) finish(id string, cfg *PropCfg, writeEvidence bool) int {
 		return die(2, id, "known_findings.json: %v", err)
 	}
 	var violations, knownHit []string
+	notAttempted := 0
 	discharged, proofObl, boundedObl := 0, 0, 0
 	var samples []map[string]interface{}
 	solverMs := int64(0)
@@ -172,6 +173,12 @@ func (r *Report) finish(id string, cfg *PropCfg, writeEvidence bool) int {
 		}
 		if o.Result == "error" {
 			return die(2, id, "obligation %s could not be formed: %s", o.Name, o.worst.Output)
+		}
+		// never attempted (the run's solving budget was exhausted before its turn): no answer of any kind - undecided,
+		// not a violation
+		if strings.HasPrefix(o.worstOutput(), "not attempted") {
+			notAttempted++
+			continue
 		}
 		// a failed obligation: known finding or violation
 		isKnown := false
@@ -319,6 +326,9 @@ func (r *Report) finish(id string, cfg *PropCfg, writeEvidence bool) int {
 	if len(undecidedTargets) > 0 {
 		return die(2, id, "%s", strings.Join(undecidedTargets, "; "))
 	}
+	if notAttempted > 0 {
+		return die(2, id, "%d obligations were never attempted: the solving budget of this run was exhausted (loaded machine, or the tree now needs far more solver time)", notAttempted)
+	}
 	return 0
 }
 
@@ -343,4 +353,11 @@ var globalTrustedBase = []string{
 	"sequential semantics: no other goroutine mutates the objects a function under contract works on; sync.* calls are no-ops",
 	"object sizes <= 2^40 elements; entry heap well-typed (stored references nil or allocated, slice headers well-formed)",
 	"termination is not claimed except where a decreases clause is discharged",
+}
+
+func (so *SrcOblig) worstOutput() string {
+	if so.worst == nil {
+		return ""
+	}
+	return so.worst.Output
 }
